@@ -535,6 +535,107 @@ func checkPerPeerGoroutines(p *core.Program, r *core.Report) {
 	})
 	r.Min("goroutines started per sender in forward", 1)
 	r.Count("goroutines started per sender in forward", n)
+
+	checkConstraintsPersisted(p, r)
+}
+
+// checkConstraintsPersisted — (6): the retention constraints of a descriptor
+// live in memory until BundleDescriptor.Sync writes them (and the pending
+// flag derived from them) to the store item. Every change of the constraint
+// set must reach the store before the function hands control to something
+// that can block for an unbounded time (starting the per-peer sender
+// goroutines, waiting for them) or returns; otherwise a stop of the node in
+// that window leaves the stored item without its retry mark. A function that
+// returns with an unsynced change is itself treated as a mutator and its call
+// sites carry the obligation (so an extracted helper is not an alarm).
+func checkConstraintsPersisted(p *core.Program, r *core.Report) {
+	rule := "a change of a bundle's retention constraints is written to the store (BundleDescriptor.Sync) before per-peer sender goroutines are started, before waiting on them, and before the function returns"
+	mut := map[*ssa.Function]bool{}
+	for _, n := range []string{"AddConstraint", "RemoveConstraint", "PurgeConstraints"} {
+		mut[p.Func(routingPkg, "BundleDescriptor", n)] = true
+	}
+	base := len(mut)
+	isSync := func(in ssa.Instruction) bool {
+		c, ok := in.(ssa.CallInstruction)
+		return ok && core.NameIs(core.CalleeName(c), routingPkg+".BundleDescriptor.Sync")
+	}
+	blocking := func(in ssa.Instruction) bool {
+		if _, ok := in.(*ssa.Go); ok {
+			return true
+		}
+		if c, ok := in.(*ssa.Call); ok {
+			if core.NameIs(core.CalleeName(c), "sync.WaitGroup.Wait") {
+				return true
+			}
+			if c.Common().IsInvoke() && c.Common().Method.Name() == "Send" {
+				return true
+			}
+		}
+		return false
+	}
+	type site struct {
+		fn *ssa.Function
+		c  ssa.CallInstruction
+	}
+	sitesOf := func() []site {
+		var out []site
+		for _, fn := range p.RepoFuncs() {
+			core.EachInstr(fn, func(in ssa.Instruction) {
+				if c, ok := in.(ssa.CallInstruction); ok {
+					if cal := core.Callee(c); cal != nil && mut[cal] {
+						out = append(out, site{fn, c})
+					}
+				}
+			})
+		}
+		return out
+	}
+	// fixpoint: functions that return with an unsynced change are mutators
+	for changed := true; changed; {
+		changed = false
+		for _, s := range sitesOf() {
+			if mut[s.fn] {
+				continue
+			}
+			if ok, ex := core.MustPassAfter(s.c, isSync, core.IsReturn); !ok && ex != nil {
+				// only when no blocking point comes first (that is reported below)
+				if ok2, _ := core.MustPassAfter(s.c, func(in ssa.Instruction) bool { return isSync(in) || core.IsReturn(in) }, blocking); ok2 {
+					mut[s.fn] = true
+					changed = true
+				}
+			}
+		}
+	}
+	n := 0
+	reach := p.DaemonReachable()
+	for _, s := range sitesOf() {
+		if mut[s.fn] || !reach[topFunc(s.fn)] {
+			continue
+		}
+		n++
+		key := "constraints-persisted/" + fname(s.fn) + "/" + core.Callee(s.c).Name()
+		if k, isK := core.ConstInt(lastArg(s.c)); isK {
+			key += fmt.Sprintf("(%d)", k)
+		}
+		ok, ex := core.MustPassAfter(s.c, isSync, func(in ssa.Instruction) bool { return core.IsReturn(in) || blocking(in) })
+		detail := ""
+		if !ok {
+			detail = "path to " + p.Pos(ex.Pos()) + " (" + ex.String() + ") without BundleDescriptor.Sync: the stored item keeps the old constraints and pending flag while the node may stop"
+		}
+		r.Check(ok, key, rule, p.Pos(s.c.Pos()), "", detail)
+	}
+	r.Count("constraint changes in daemon code", n)
+	r.Min("constraint changes in daemon code", 9)
+	r.Count("constraint mutators", len(mut))
+	r.Min("constraint mutators", base)
+}
+
+func lastArg(c ssa.CallInstruction) ssa.Value {
+	a := c.Common().Args
+	if len(a) == 0 {
+		return nil
+	}
+	return a[len(a)-1]
 }
 
 // deleteAfterwardsSound: the phi is true only from the direct-delivery path
